@@ -863,4 +863,430 @@ example :
     ((renderTree {} Deco.rich 6 (.box {} .block kids)).toOption.map fun ls => ls.map fun l => (rlineChars l).map (·.cp)) =
       some [[97, 98, 32, 99, 100], [101, 102, 32, 103, 104, 105], [106, 107]] := by decide +kernel
 
+/-! ## …with strikeout
+
+The same development with the strikeout depth tracked: inside `<s>`/`<del>` (with the Unicode strikeout on) every text
+passes through `strikeFilter` once per enclosing strikeout before it reaches the wrap machine; the paragraph is then the
+greedy filling of the words of the *filtered* flat text. -/
+
+def inlineOpS : Op → Bool
+  | .text _ => true
+  | .startAnn _ _ _ => true
+  | .endAnn _ _ => true
+  | .startLink _ => true
+  | .endLink => true
+  | .image _ _ => true
+  | .pushAnn _ => true
+  | .popAnn => true
+  | _ => false
+
+def inlineOpsS : List Op → Bool
+  | [] => true
+  | op :: r => inlineOpS op && inlineOpsS r
+
+/-- the part an inline operation feeds to the wrap machine under stack `st` and strikeout depth `dep`; stack and depth
+    afterwards -/
+def opPartS (cfg : Cfg) (d : Deco) (st : Tag) (dep : Nat) : Op → List Part × Tag × Nat
+  | .text x => ([.text st st (iterN strikeFilter dep x)], st, dep)
+  | .startAnn a x strike =>
+    ([.text (st ++ [d.annOf a]) (st ++ [d.annOf a]) (iterN strikeFilter dep x)], st ++ [d.annOf a],
+      if strike && cfg.unicodeStrike then dep + 1 else dep)
+  | .endAnn x strike =>
+    ([.text st st (iterN strikeFilter (if strike && cfg.unicodeStrike then dep - 1 else dep) x)], st.dropLast,
+      if strike && cfg.unicodeStrike then dep - 1 else dep)
+  | .startLink h =>
+    ([.text (st ++ [d.annOf (Ann.link h)]) (st ++ [d.annOf (Ann.link h)]) (iterN strikeFilter dep d.linkStart)], st ++ [d.annOf (Ann.link h)], dep)
+  | .endLink => ([.text st st (iterN strikeFilter dep d.linkEnd)], st.dropLast, dep)
+  | .image src t =>
+    ([.text (st ++ [d.annOf (Ann.image src)]) (st ++ [d.annOf (Ann.image src)]) (iterN strikeFilter dep (d.imgText t))], st, dep)
+  | .pushAnn a => ([], st ++ [a], dep)
+  | .popAnn => ([], st.dropLast, dep)
+  | _ => ([], st, dep)
+
+def opsPartsS (cfg : Cfg) (d : Deco) : Tag → Nat → List Op → List Part
+  | _, _, [] => []
+  | st, dep, op :: r => (opPartS cfg d st dep op).1 ++ opsPartsS cfg d (opPartS cfg d st dep op).2.1 (opPartS cfg d st dep op).2.2 r
+
+structure PInvS (cfg : Cfg) (dep : Nat) (s : SubR) (b : WB) : Prop where
+  lines : s.lines = []
+  abe : s.atBlockEnd = false
+  pre : s.preDepth = 0
+  ws : s.wsStack = []
+  fd : s.filterDepth = dep
+  pf : s.pendingFrags = []
+  wb : s.getWrapping cfg = b
+  mks : b.marks = []
+  lo : b.LineOk
+
+theorem inl_text_stepS (cfg : Cfg) (dep : Nat) (s : SubR) (b : WB) (x : List Ch) (f : Ann → Ann) (h : PInvS cfg dep s b) :
+    s.addInlineText cfg x f =
+      (match b.addText .normal s.annStack s.annStack (iterN strikeFilter dep x) with
+       | .ok b' => .ok { s with wrapping := some b' }
+       | .error e => .error e) := by
+  unfold SubR.addInlineText
+  simp only [SubR.wsMode, h.ws, List.getLast?_nil, Option.getD_none, WS.preserve, Bool.not_false, Bool.true_and, h.abe, Bool.false_and,
+    Bool.false_eq_true, if_false, andThen, h.fd, h.pre, Nat.lt_irrefl, h.wb]
+  cases b.addText .normal s.annStack s.annStack (iterN strikeFilter dep x) <;> rfl
+
+theorem PInvS.after_text {cfg : Cfg} {dep : Nat} {s : SubR} {b b' : WB} {x : List Ch} (h : PInvS cfg dep s b) (st : Tag)
+    (e : b.addText .normal st st x = .ok b') : PInvS cfg dep { s with wrapping := some b' } b' :=
+  ⟨h.lines, h.abe, h.pre, h.ws, h.fd, h.pf, rfl, by rw [(addText_marks b b' _ _ _ _ h.lo e).1]; exact h.mks, (addText_marks b b' _ _ _ _ h.lo e).2⟩
+
+theorem PInvS.stack {cfg : Cfg} {dep : Nat} {s : SubR} {b : WB} (h : PInvS cfg dep s b) (st : Tag) : PInvS cfg dep { s with annStack := st } b :=
+  ⟨h.lines, h.abe, h.pre, h.ws, h.fd, h.pf, h.wb, h.mks, h.lo⟩
+
+theorem PInvS.depth {cfg : Cfg} {dep : Nat} {s : SubR} {b : WB} (h : PInvS cfg dep s b) (dep' : Nat) :
+    PInvS cfg dep' { s with filterDepth := dep' } b :=
+  ⟨h.lines, h.abe, h.pre, h.ws, rfl, h.pf, h.wb, h.mks, h.lo⟩
+
+theorem inline_stepS (cfg : Cfg) (d : Deco) (hfn : cfg.footnotes = false) (op : Op) (t : RS) (b : WB) (dep : Nat) (hop : inlineOpS op = true)
+    (h : PInvS cfg dep t.cur b) :
+    match b.runParts (opPartS cfg d t.cur.annStack dep op).1 with
+    | .ok b' => ∃ t', runOp SubR.widthMinus cfg d t op = .ok t' ∧ PInvS cfg (opPartS cfg d t.cur.annStack dep op).2.2 t'.cur b' ∧
+        t'.cur.annStack = (opPartS cfg d t.cur.annStack dep op).2.1
+    | .error e => runOp SubR.widthMinus cfg d t op = .error e := by
+  cases op <;> simp only [inlineOpS, Bool.false_eq_true] at hop
+  case text x =>
+    simp only [opPartS, WB.runParts, WB.addPart, andThen, runOp, stepSimple, RS.onCur, inl_text_stepS cfg dep t.cur b x _ h]
+    cases e : b.addText .normal t.cur.annStack t.cur.annStack (iterN strikeFilter dep x) with
+    | error err => rfl
+    | ok b' => exact ⟨_, rfl, h.after_text _ e, rfl⟩
+  case startAnn a x strike =>
+    have h1 := (h.stack (t.cur.annStack ++ [d.annOf a]))
+    simp only [opPartS, WB.runParts, WB.addPart, andThen, runOp, stepSimple, RS.onCur, inl_text_stepS cfg dep _ b x _ h1]
+    cases e : b.addText .normal (t.cur.annStack ++ [d.annOf a]) (t.cur.annStack ++ [d.annOf a]) (iterN strikeFilter dep x) with
+    | error err => rfl
+    | ok b' =>
+      have h2 := h1.after_text _ e
+      by_cases hs : (strike && cfg.unicodeStrike) = true
+      · simp only [hs, if_true]
+        refine ⟨_, rfl, ?_, rfl⟩
+        have := h2.depth (dep + 1)
+        simpa [h.fd] using this
+      · simp only [hs, if_false, Bool.false_eq_true]
+        exact ⟨_, rfl, by simpa using h2, rfl⟩
+  case endAnn x strike =>
+    by_cases hs : (strike && cfg.unicodeStrike) = true
+    · have h0 := h.depth (dep - 1)
+      simp only [opPartS, WB.runParts, WB.addPart, andThen, runOp, stepSimple, RS.onCur, hs, if_true, h.fd] at h0 ⊢
+      rw [inl_text_stepS cfg (dep - 1) _ b x _ h0]
+      cases e : b.addText .normal t.cur.annStack t.cur.annStack (iterN strikeFilter (dep - 1) x) with
+      | error err => rfl
+      | ok b' => exact ⟨_, rfl, (h0.after_text _ e).stack _, rfl⟩
+    · simp only [opPartS, WB.runParts, WB.addPart, andThen, runOp, stepSimple, RS.onCur, hs, if_false, Bool.false_eq_true,
+        inl_text_stepS cfg dep t.cur b x _ h]
+      cases e : b.addText .normal t.cur.annStack t.cur.annStack (iterN strikeFilter dep x) with
+      | error err => rfl
+      | ok b' => exact ⟨_, rfl, (h.after_text _ e).stack _, rfl⟩
+  case startLink href =>
+    have h1 := (h.stack (t.cur.annStack ++ [d.annOf (Ann.link href)]))
+    simp only [opPartS, WB.runParts, WB.addPart, andThen, runOp, stepSimple, RS.onCur, inl_text_stepS cfg dep _ b d.linkStart _ h1]
+    cases e : b.addText .normal (t.cur.annStack ++ [d.annOf (Ann.link href)]) (t.cur.annStack ++ [d.annOf (Ann.link href)]) (iterN strikeFilter dep d.linkStart) with
+    | error err => rfl
+    | ok b' => exact ⟨_, rfl, by simpa using h1.after_text _ e, rfl⟩
+  case endLink =>
+    simp only [opPartS, WB.runParts, WB.addPart, andThen, runOp, stepSimple, RS.onCur, hfn, Bool.false_eq_true, if_false,
+      inl_text_stepS cfg dep t.cur b d.linkEnd _ h]
+    cases e : b.addText .normal t.cur.annStack t.cur.annStack (iterN strikeFilter dep d.linkEnd) with
+    | error err => rfl
+    | ok b' => exact ⟨_, rfl, (h.after_text _ e).stack _, rfl⟩
+  case image src title =>
+    have h1 := (h.stack (t.cur.annStack ++ [d.annOf (Ann.image src)]))
+    simp only [opPartS, WB.runParts, WB.addPart, andThen, runOp, stepSimple, RS.onCur, inl_text_stepS cfg dep _ b (d.imgText title) _ h1]
+    cases e : b.addText .normal (t.cur.annStack ++ [d.annOf (Ann.image src)]) (t.cur.annStack ++ [d.annOf (Ann.image src)]) (iterN strikeFilter dep (d.imgText title)) with
+    | error err => rfl
+    | ok b' => exact ⟨_, rfl, by simpa using (h1.after_text _ e).stack _, by simp⟩
+  case pushAnn a =>
+    simp only [opPartS, WB.runParts, runOp, stepSimple, RS.onCur, andThen]
+    exact ⟨_, rfl, h.stack _, rfl⟩
+  case popAnn =>
+    simp only [opPartS, WB.runParts, runOp, stepSimple, RS.onCur, andThen]
+    exact ⟨_, rfl, h.stack _, rfl⟩
+
+theorem inline_simS (cfg : Cfg) (d : Deco) (hfn : cfg.footnotes = false) : ∀ (ops : List Op) (t : RS) (b : WB) (dep : Nat), inlineOpsS ops = true →
+    PInvS cfg dep t.cur b →
+    match b.runParts (opsPartsS cfg d t.cur.annStack dep ops) with
+    | .ok b' => ∃ t' dep', runOps SubR.widthMinus cfg d t ops = .ok t' ∧ PInvS cfg dep' t'.cur b'
+    | .error e => runOps SubR.widthMinus cfg d t ops = .error e := by
+  intro ops
+  induction ops with
+  | nil => intro t b dep _ h; simp only [opsPartsS, WB.runParts, runOps]; exact ⟨t, dep, rfl, h⟩
+  | cons op r ih =>
+    intro t b dep hops h
+    simp only [inlineOpsS, Bool.and_eq_true] at hops
+    have hs := inline_stepS cfg d hfn op t b dep hops.1 h
+    simp only [opsPartsS, runParts_append, runOps]
+    cases e1 : b.runParts (opPartS cfg d t.cur.annStack dep op).1 with
+    | error err =>
+      rw [e1] at hs
+      simp only [andThen, hs]
+    | ok b1 =>
+      rw [e1] at hs
+      obtain ⟨t1, r1, i1, a1⟩ := hs
+      simp only [andThen, r1]
+      have := ih t1 b1 _ hops.2 i1
+      rw [a1] at this
+      exact this
+
+/-- **a paragraph with inline markup, strikeout included, is wrapped greedily** (any `max_wrap_width`, footnotes off): the
+    lines are the reference `greedy`'s on the words of the parts' text — every text filtered once per enclosing strikeout -/
+theorem inline_paragraph_is_greedyS (cfg : Cfg) (d : Deco) (w : Nat) (hw : 1 ≤ w) (hfn : cfg.footnotes = false) (hm : 1 ≤ wrapEff cfg w)
+    (hpad : cfg.padBlocks = false) (hov : cfg.overflow = false) (kids : List RNode) (hin : inlineOpsS (compileList cfg d kids) = true)
+    (hpos : ∀ wd ∈ words (partsText (opsPartsS cfg d [] 0 (compileList cfg d kids))), 0 < lwc wd) :
+    (renderTree cfg d w (.box {} .block kids)).map (fun ls => ls.map rlineChars) =
+      greedy (wrapEff cfg w) (words (partsText (opsPartsS cfg d [] 0 (compileList cfg d kids)))) := by
+  have hg := wrap_eq_greedy_full (wrapEff cfg w) (opsPartsS cfg d [] 0 (compileList cfg d kids)) hm hpos
+  rw [← hg]
+  unfold wrapParts renderTree
+  rw [if_neg (by omega)]
+  have hc : compile cfg d (.box {} .block kids) = .startBlock :: (compileList cfg d kids ++ [.endBlock]) := by
+    simp [compile, styleOpen, styleClose]
+  rw [hc, runOps_cons_eq]
+  have hsb : runOp SubR.widthMinus cfg d ({ cur := { width := w } } : RS) .startBlock = .ok { cur := { width := w } } := by
+    simp [runOp, stepSimple, RS.onCur, SubR.startBlock, SubR.flushWrapping, andThen]
+  have hinv : PInvS cfg 0 ({ cur := { width := w } } : RS).cur ({ width := wrapEff cfg w } : WB) :=
+    ⟨rfl, rfl, rfl, rfl, rfl, rfl, by simp only [SubR.getWrapping, wrapEff, hpad, hov]; cases cfg.wrapWidth <;> rfl, rfl, fun _ => Or.inl rfl⟩
+  have hsim := inline_simS cfg d hfn (compileList cfg d kids) { cur := { width := w } } { width := wrapEff cfg w } 0 hin hinv
+  rw [hsb]
+  simp only [andThen]
+  rw [runOps_append]
+  cases e1 : ({ width := wrapEff cfg w } : WB).runParts (opsPartsS cfg d [] 0 (compileList cfg d kids)) with
+  | error err =>
+    rw [e1] at hsim
+    have hsim' : runOps SubR.widthMinus cfg d { cur := { width := w } } (compileList cfg d kids) = .error err := hsim
+    simp only [hsim', andThen]
+    rfl
+  | ok b1 =>
+    rw [e1] at hsim
+    obtain ⟨t1, dep1, r1, i1⟩ := hsim
+    simp only [r1, andThen, runOps, runOp, stepSimple, RS.onCur, footTexts, hfn, Bool.false_eq_true, if_false, List.isEmpty_nil, if_true]
+    unfold SubR.intoLines SubR.flushWrapping
+    have hwb := i1.wb
+    unfold SubR.getWrapping at hwb
+    cases hwr : t1.cur.wrapping with
+    | none =>
+      simp only [hwr] at hwb
+      rw [← hwb, fresh_finish]
+      simp only [andThen, i1.lines, Except.map, linesText, List.map_nil]
+    | some w1 =>
+      simp only [hwr] at hwb
+      subst hwb
+      have hwm : marks w1.word = [] := by
+        have := i1.mks
+        simp only [WB.marks, List.append_eq_nil_iff] at this
+        exact this.2
+      have hb : (if w1.word.noContent = true then { w1 with word := [] } else w1) = w1 := by
+        split
+        · rename_i hn
+          have := noContent_no_marks w1.word hn hwm
+          cases w1; simp_all
+        · rfl
+      have hfr : (if w1.word.noContent = true then w1.word else []) = [] := by
+        split
+        · rename_i hn; exact noContent_no_marks w1.word hn hwm
+        · rfl
+      simp only [hb, hfr, andThen]
+      cases h2 : w1.finish with
+      | error e => rfl
+      | ok ls =>
+        have := (addLines_plain (ls.map RLine.text) ({ t1.cur with atBlockEnd := true, wrapping := none } : SubR) i1.pf).1
+        simp only [Except.map]
+        rw [this]
+        simp only [i1.lines, List.nil_append, List.map_map, linesText]
+        congr 1
+
+mutual
+/-- inline content, strikeout included -/
+def inlineNodeS : RNode → Bool
+  | .text sty _ => colourOnly sty
+  | .img sty _ _ => colourOnly sty
+  | .box sty k kids =>
+    colourOnly sty && (match k with | .container | .em | .strong | .strike | .code | .link _ => true | _ => false) && inlineNodesS kids
+  | _ => false
+def inlineNodesS : List RNode → Bool
+  | [] => true
+  | n :: ns => inlineNodeS n && inlineNodesS ns
+end
+
+mutual
+/-- the text the wrap machine receives: every text and decorator string filtered once per enclosing strikeout -/
+def inlFlatS (cfg : Cfg) (d : Deco) (dep : Nat) : RNode → List Ch
+  | .text _ s => iterN strikeFilter dep s
+  | .img _ _ title => iterN strikeFilter dep (d.imgText title)
+  | .box _ k kids =>
+    match k with
+    | .em => iterN strikeFilter dep d.emStart ++ inlFlatsS cfg d dep kids ++ iterN strikeFilter dep d.emEnd
+    | .strong => iterN strikeFilter dep d.strongStart ++ inlFlatsS cfg d dep kids ++ iterN strikeFilter dep d.strongEnd
+    | .strike =>
+      iterN strikeFilter dep d.strikeStart ++ inlFlatsS cfg d (if cfg.unicodeStrike then dep + 1 else dep) kids ++
+        iterN strikeFilter dep d.strikeEnd
+    | .code => iterN strikeFilter dep d.codeStart ++ inlFlatsS cfg d dep kids ++ iterN strikeFilter dep d.codeEnd
+    | .link _ => iterN strikeFilter dep d.linkStart ++ inlFlatsS cfg d dep kids ++ iterN strikeFilter dep d.linkEnd
+    | _ => inlFlatsS cfg d dep kids
+  | _ => []
+def inlFlatsS (cfg : Cfg) (d : Deco) (dep : Nat) : List RNode → List Ch
+  | [] => []
+  | n :: ns => inlFlatS cfg d dep n ++ inlFlatsS cfg d dep ns
+end
+
+theorem inlineOpsS_append (a b : List Op) : inlineOpsS (a ++ b) = (inlineOpsS a && inlineOpsS b) := by
+  induction a with
+  | nil => simp [inlineOpsS]
+  | cons x a ih => simp [inlineOpsS, ih, Bool.and_assoc]
+
+theorem inlineS_styleOpen (d : Deco) (sty : Style) (h : colourOnly sty = true) : inlineOpsS (styleOpen d sty) = true := by
+  simp only [colourOnly, Bool.and_eq_true, Option.isNone_iff_eq_none, Bool.not_eq_true'] at h
+  unfold styleOpen
+  rw [h.1, h.2]
+  cases sty.fg <;> cases sty.bg <;> cases d.colours <;> simp [inlineOpsS, inlineOpS]
+
+theorem inlineS_styleClose (d : Deco) (sty : Style) (h : colourOnly sty = true) : inlineOpsS (styleClose d sty) = true := by
+  simp only [colourOnly, Bool.and_eq_true, Option.isNone_iff_eq_none, Bool.not_eq_true'] at h
+  unfold styleClose
+  rw [h.1, h.2]
+  cases sty.fg <;> cases sty.bg <;> cases d.colours <;> simp [inlineOpsS, inlineOpS]
+
+mutual
+theorem compile_inlineS (cfg : Cfg) (d : Deco) : (n : RNode) → inlineNodeS n = true → inlineOpsS (compile cfg d n) = true
+  | .text sty s, h => by
+    simp only [inlineNodeS] at h
+    simp [compile, inlineOpsS_append, inlineS_styleOpen d sty h, inlineS_styleClose d sty h, inlineOpsS, inlineOpS]
+  | .img sty a b, h => by
+    simp only [inlineNodeS] at h
+    simp [compile, inlineOpsS_append, inlineS_styleOpen d sty h, inlineS_styleClose d sty h, inlineOpsS, inlineOpS]
+  | .box sty k kids, h => by
+    simp only [inlineNodeS, Bool.and_eq_true] at h
+    have ho := inlineS_styleOpen d sty h.1.1
+    have hc := inlineS_styleClose d sty h.1.1
+    have hb := compileList_inlineS cfg d kids h.2
+    cases k <;> simp at h <;> simp [compile, inlineOpsS_append, ho, hc, hb, inlineOpsS, inlineOpS]
+  | .br _, h => by simp [inlineNodeS] at h
+  | .frag _, h => by simp [inlineNodeS] at h
+  | .cell _ _ _, h => by simp [inlineNodeS] at h
+  | .row _ _, h => by simp [inlineNodeS] at h
+  | .tbody _ _, h => by simp [inlineNodeS] at h
+  | .table _ _ _, h => by simp [inlineNodeS] at h
+theorem compileList_inlineS (cfg : Cfg) (d : Deco) : (ns : List RNode) → inlineNodesS ns = true → inlineOpsS (compileList cfg d ns) = true
+  | [], _ => by simp [compileList, inlineOpsS]
+  | n :: ns, h => by
+    simp only [inlineNodesS, Bool.and_eq_true] at h
+    simp [compileList, inlineOpsS_append, compile_inlineS cfg d n h.1, compileList_inlineS cfg d ns h.2]
+end
+
+def opsEndS (cfg : Cfg) (d : Deco) : Tag → Nat → List Op → Tag × Nat
+  | st, dep, [] => (st, dep)
+  | st, dep, op :: r => opsEndS cfg d (opPartS cfg d st dep op).2.1 (opPartS cfg d st dep op).2.2 r
+
+theorem opsPartsS_append (cfg : Cfg) (d : Deco) (a b : List Op) : ∀ st dep,
+    opsPartsS cfg d st dep (a ++ b) = opsPartsS cfg d st dep a ++ opsPartsS cfg d (opsEndS cfg d st dep a).1 (opsEndS cfg d st dep a).2 b := by
+  induction a with
+  | nil => intro st dep; rfl
+  | cons x a ih => intro st dep; simp only [List.cons_append, opsPartsS, opsEndS, ih, List.append_assoc]
+
+theorem opsEndS_append (cfg : Cfg) (d : Deco) (a b : List Op) : ∀ st dep,
+    opsEndS cfg d st dep (a ++ b) = opsEndS cfg d (opsEndS cfg d st dep a).1 (opsEndS cfg d st dep a).2 b := by
+  induction a with
+  | nil => intro st dep; rfl
+  | cons x a ih => intro st dep; simp only [List.cons_append, opsEndS, ih]
+
+theorem partsS_styleOpen (cfg : Cfg) (d : Deco) (sty : Style) (h : colourOnly sty = true) (st : Tag) (dep : Nat) :
+    opsPartsS cfg d st dep (styleOpen d sty) = [] ∧ opsEndS cfg d st dep (styleOpen d sty) = (st ++ colTags d sty, dep) := by
+  simp only [colourOnly, Bool.and_eq_true, Option.isNone_iff_eq_none, Bool.not_eq_true'] at h
+  unfold styleOpen colTags
+  rw [h.1, h.2]
+  cases sty.fg <;> cases sty.bg <;> cases d.colours <;> simp [opsPartsS, opsEndS, opPartS]
+
+theorem partsS_styleClose (cfg : Cfg) (d : Deco) (sty : Style) (h : colourOnly sty = true) (st : Tag) (dep : Nat) :
+    opsPartsS cfg d (st ++ colTags d sty) dep (styleClose d sty) = [] ∧
+      opsEndS cfg d (st ++ colTags d sty) dep (styleClose d sty) = (st, dep) := by
+  simp only [colourOnly, Bool.and_eq_true, Option.isNone_iff_eq_none, Bool.not_eq_true'] at h
+  unfold styleClose colTags
+  rw [h.1, h.2]
+  cases sty.fg <;> cases sty.bg <;> cases d.colours <;> simp [opsPartsS, opsEndS, opPartS]
+
+theorem partsS_styled (cfg : Cfg) (d : Deco) (sty : Style) (h : colourOnly sty = true) (st : Tag) (dep : Nat) (inner : List Op) (txt : List Ch)
+    (hi : partsText (opsPartsS cfg d (st ++ colTags d sty) dep inner) = txt ∧
+      opsEndS cfg d (st ++ colTags d sty) dep inner = (st ++ colTags d sty, dep)) :
+    partsText (opsPartsS cfg d st dep (styleOpen d sty ++ inner ++ styleClose d sty)) = txt ∧
+      opsEndS cfg d st dep (styleOpen d sty ++ inner ++ styleClose d sty) = (st, dep) := by
+  obtain ⟨o1, o2⟩ := partsS_styleOpen cfg d sty h st dep
+  obtain ⟨c1, c2⟩ := partsS_styleClose cfg d sty h st dep
+  simp only [opsPartsS_append, opsEndS_append, partsText_append, o1, o2, hi.1, hi.2, c1, c2, partsText, List.nil_append, List.append_nil]
+  exact ⟨trivial, trivial⟩
+
+mutual
+theorem partsS_compile (cfg : Cfg) (d : Deco) : (n : RNode) → inlineNodeS n = true → (st : Tag) → (dep : Nat) →
+    partsText (opsPartsS cfg d st dep (compile cfg d n)) = inlFlatS cfg d dep n ∧ opsEndS cfg d st dep (compile cfg d n) = (st, dep)
+  | .text sty s, h, st, dep => by
+    simp only [inlineNodeS] at h
+    simp only [compile, inlFlatS]
+    exact partsS_styled cfg d sty h st dep _ _ (by simp [opsPartsS, opsEndS, opPartS, partsText, Part.chars])
+  | .img sty a b, h, st, dep => by
+    simp only [inlineNodeS] at h
+    simp only [compile, inlFlatS]
+    exact partsS_styled cfg d sty h st dep _ _ (by simp [opsPartsS, opsEndS, opPartS, partsText, Part.chars])
+  | .box sty k kids, h, st, dep => by
+    simp only [inlineNodeS, Bool.and_eq_true] at h
+    have hb := fun s e => partsS_compileList cfg d kids h.2 s e
+    cases k <;> simp at h <;> simp only [compile, inlFlatS] <;> apply partsS_styled cfg d sty h.1 st dep
+    · exact hb _ _
+    · simp only [List.singleton_append, opsPartsS, opsEndS, opPartS, opsPartsS_append, opsEndS_append, partsText_append, partsText, Part.chars,
+        (hb _ _).1, (hb _ _).2, List.append_nil, List.append_assoc, Bool.false_and, Bool.false_eq_true, if_false]
+      simp
+    · simp only [List.singleton_append, opsPartsS, opsEndS, opPartS, opsPartsS_append, opsEndS_append, partsText_append, partsText, Part.chars,
+        (hb _ _).1, (hb _ _).2, List.append_nil, List.append_assoc, Bool.false_and, Bool.false_eq_true, if_false]
+      simp
+    · simp only [List.singleton_append, opsPartsS, opsEndS, opPartS, opsPartsS_append, opsEndS_append, partsText_append, partsText, Part.chars,
+        (hb _ _).1, (hb _ _).2, List.append_nil, List.append_assoc, Bool.false_and, Bool.false_eq_true, if_false]
+      simp
+    · by_cases hu : cfg.unicodeStrike = true
+      · simp only [List.singleton_append, opsPartsS, opsEndS, opPartS, opsPartsS_append, opsEndS_append, partsText_append, partsText, Part.chars,
+          (hb _ _).1, (hb _ _).2, List.append_nil, List.append_assoc, Bool.true_and, hu, if_true, Nat.add_sub_cancel]
+        simp
+      · have hu' : cfg.unicodeStrike = false := by simpa using hu
+        simp only [List.singleton_append, opsPartsS, opsEndS, opPartS, opsPartsS_append, opsEndS_append, partsText_append, partsText, Part.chars,
+          (hb _ _).1, (hb _ _).2, List.append_nil, List.append_assoc, Bool.true_and, hu', Bool.false_eq_true, if_false]
+        simp
+    · simp only [List.singleton_append, opsPartsS, opsEndS, opPartS, opsPartsS_append, opsEndS_append, partsText_append, partsText, Part.chars,
+        (hb _ _).1, (hb _ _).2, List.append_nil, List.append_assoc, Bool.false_and, Bool.false_eq_true, if_false]
+      simp
+  | .br _, h, _, _ => by simp [inlineNodeS] at h
+  | .frag _, h, _, _ => by simp [inlineNodeS] at h
+  | .cell _ _ _, h, _, _ => by simp [inlineNodeS] at h
+  | .row _ _, h, _, _ => by simp [inlineNodeS] at h
+  | .tbody _ _, h, _, _ => by simp [inlineNodeS] at h
+  | .table _ _ _, h, _, _ => by simp [inlineNodeS] at h
+theorem partsS_compileList (cfg : Cfg) (d : Deco) : (ns : List RNode) → inlineNodesS ns = true → (st : Tag) → (dep : Nat) →
+    partsText (opsPartsS cfg d st dep (compileList cfg d ns)) = inlFlatsS cfg d dep ns ∧ opsEndS cfg d st dep (compileList cfg d ns) = (st, dep)
+  | [], _, st, dep => by simp [compileList, opsPartsS, opsEndS, partsText, inlFlatsS]
+  | n :: ns, h, st, dep => by
+    simp only [inlineNodesS, Bool.and_eq_true] at h
+    obtain ⟨a1, a2⟩ := partsS_compile cfg d n h.1 st dep
+    obtain ⟨b1, b2⟩ := partsS_compileList cfg d ns h.2 st dep
+    simp only [compileList, opsPartsS_append, opsEndS_append, partsText_append, a1, a2, b1, b2, inlFlatsS]
+    exact ⟨trivial, trivial⟩
+end
+
+/-- **C04 across inline markup, strikeout included, on the render tree** (any `max_wrap_width`): a paragraph whose children
+    are inline content — `<s>`/`<del>` too — is the greedy filling of the words of its flat text, in which every text inside
+    a strikeout has passed the strikeout filter (U+0336 after every visible character, zero width) -/
+theorem struck_inline_paragraph_is_greedy (cfg : Cfg) (d : Deco) (w : Nat) (hw : 1 ≤ w) (hfn : cfg.footnotes = false)
+    (hm : 1 ≤ wrapEff cfg w) (hpad : cfg.padBlocks = false) (hov : cfg.overflow = false) (kids : List RNode)
+    (hin : inlineNodesS kids = true) (hpos : ∀ wd ∈ words (inlFlatsS cfg d 0 kids), 0 < lwc wd) :
+    (renderTree cfg d w (.box {} .block kids)).map (fun ls => ls.map rlineChars) = greedy (wrapEff cfg w) (words (inlFlatsS cfg d 0 kids)) := by
+  have ht := (partsS_compileList cfg d kids hin [] 0).1
+  have := inline_paragraph_is_greedyS cfg d w hw hfn hm hpad hov kids (compileList_inlineS cfg d kids hin) (by rw [ht]; exact hpos)
+  rw [ht] at this
+  exact this
+
+/-! non-vacuity: `<p>ab <s>cd e</s>f g</p>` in rich mode at width 4 (Unicode strikeout on): the word `e̶f` begins inside the
+    strikeout and ends after it; U+0336 (code 822) takes no width -/
+example :
+    let kids : List RNode := [.text {} (strCh "ab "), .box {} .strike [.text {} (strCh "cd e")], .text {} (strCh "f g")]
+    inlineNodesS kids = true ∧ (∀ wd ∈ words (inlFlatsS {} Deco.rich 0 kids), 0 < lwc wd) ∧
+    (greedy 4 (words (inlFlatsS {} Deco.rich 0 kids))).toOption.map (fun ls => ls.map fun l => l.map (·.cp)) =
+      some [[97, 98], [99, 822, 100, 822], [101, 822, 102, 32, 103]] ∧
+    ((renderTree {} Deco.rich 4 (.box {} .block kids)).toOption.map fun ls => ls.map fun l => (rlineChars l).map (·.cp)) =
+      some [[97, 98], [99, 822, 100, 822], [101, 822, 102, 32, 103]] := by decide +kernel
+
 end H2T.C04
